@@ -4,7 +4,7 @@
 set -u
 S="$1"; C="$2"; T="${3:-quick}"
 D=/verif/seeded/$S
-R=$(cd /verif && ./mutant-run.sh re-$S-$C "$D/patch.diff" "$C" "$T" 2>&1 | tail -3 | tr '\n' ' ' | cut -c1-500)
+R=$(cd /verif && ./mutant-run.sh re-$S-$C "$D/patch.diff" "$C" "$T" 2>&1 | grep -v "^KNOWN-FINDING" | tail -3 | tr '\n' ' ' | cut -c1-500)
 python3 - "$D/meta.json" "$C" "$T" "$R" <<'PY'
 import json,sys
 p,c,t,r=sys.argv[1:5]
